@@ -76,6 +76,7 @@ func TestMain(m *testing.M) {
 }
 
 func run(m *testing.M) int {
+	removeStaleRoots("verif-c13-")
 	root, err := os.MkdirTemp("/dev/shm", "verif-c13-")
 	if err != nil {
 		fmt.Fprintf(os.Stderr, "c13: no scratch dir: %s\n", err)
@@ -114,6 +115,23 @@ func run(m *testing.M) int {
 	}
 	// no modules.Shutdown (see harness README); the scratch dir is removed by the deferred call
 	return code
+}
+
+// removeStaleRoots deletes data roots of earlier test processes that were
+// killed (fuzz workers are) and could not remove theirs: older than an hour.
+func removeStaleRoots(prefix string) {
+	entries, err := os.ReadDir("/dev/shm")
+	if err != nil {
+		return
+	}
+	for _, e := range entries {
+		if !e.IsDir() || !strings.HasPrefix(e.Name(), prefix) {
+			continue
+		}
+		if info, err := e.Info(); err == nil && time.Since(info.ModTime()) > time.Hour {
+			_ = os.RemoveAll("/dev/shm/" + e.Name())
+		}
+	}
 }
 
 func freeLoopbackAddr() string {
@@ -265,16 +283,31 @@ func (w *waiter) pause() bool {
 }
 
 // waitQuiet waits until no request handler goroutine is running except
-// subscriptions parked in their receive loop.
-func waitQuiet() (parkedSubs int, ok bool, dump string) {
+// subscriptions parked in their receive loop, in `confirm` consecutive
+// observations. One observation is not trusted: runtime.Stack(all) stops the
+// world, but a goroutine that is returning from a system call at that moment
+// (the fstree back end does file I/O) is traced from a stale stack pointer and
+// can appear without its handler frames (seen twice in ~10^6 cases, both
+// times on fstree, never reproduced).
+func waitQuiet(confirm int) (parkedSubs int, ok bool, dump string) {
 	w := newWaiter()
 	defer func() { timeQuiet += time.Since(w.start) }()
+	seen := 0
 	for {
 		quietPolls++
 		total, parked, d := handlerGoroutines()
 		if total == parked {
-			return parked, true, ""
+			seen++
+			if seen >= confirm {
+				return parked, true, ""
+			}
+			runtime.Gosched()
+			if seen > 2 {
+				time.Sleep(300 * time.Microsecond)
+			}
+			continue
 		}
+		seen = 0
 		if !w.pause() {
 			return parked, false, d
 		}
